@@ -107,6 +107,13 @@ def execute(version, script, token, user_plug, seed, thr_of=None, keybits=1024, 
             return prof.plugin_request(mid, 'verif:chan', b'\x01' * (cur_thr - base))
         return prof.plugin_request(mid, 'verif:chan', b'\x01\x02')
 
+    def disc_text(kind):
+        text = TEXTS[kind][0]
+        if kind.startswith('outdated') and seed % 2:
+            # the usual case in the field: the server names a version this library has never heard of
+            text = text.replace('1.16.5', '1.99.9').replace('1.8.9', '0.30-classic')
+        return text
+
     def factory(idx, sess, script=script):
         if idx >= 1 and second is not None:
             script = second             # the script of the connection an exception handler opens after the first one failed
@@ -171,7 +178,7 @@ def execute(version, script, token, user_plug, seed, thr_of=None, keybits=1024, 
             elif st[0] == 'disc':
                 kind = 'disc_outdated' if st[1].startswith('outdated') else 'disc_plain'
                 steps += [('call', lambda sc, kind=kind: run.ev('srv', s=[kind])),
-                          ('send', prof.login_disconnect(TEXTS[st[1]][0]))]
+                          ('send', prof.login_disconnect(disc_text(st[1])))]
         sc.steps = steps
         return sc
 
@@ -273,7 +280,7 @@ def observe(run, token, user_plug, thr_index):
         ok = True
         last = [e for e in run.trace if e['k'] == 'srv'][-1]['s']
         if name == 'VersionMismatch':
-            ok = getattr(exc, 'server_version', None) in ('1.16.5', '1.8.9') and getattr(exc, 'server_version') in str(exc)
+            ok = getattr(exc, 'server_version', None) in ('1.16.5', '1.8.9', '1.99.9', '0.30-classic') and getattr(exc, 'server_version') in str(exc)
         elif name == 'LoginDisconnect':
             ok = any(t[1] and t[1] in str(exc) for t in TEXTS.values())
         ok = ok and run.exits == 0
